@@ -141,6 +141,12 @@ def state_case(rep, spec, index):
     st, curve2 = _guard(lambda: pv.ideal_diffusion_curve(T, [xm, x], tp, pp, prec, model))
     if st == "ok":
         curve_metrics(rep, dict(case, curve_basis="molar+weight"), curve2)
+    if rng.random() < 0.25:
+        try:
+            edit_then_compare(rep, case, fc, rng, T, x, tp, pp, prec, model)
+        except Exception as e:
+            rep.harness_error(f"C08 edit-then-compare: {e!r}", e)
+        return
     # step 0 of both ideal processes
     cond = Conditions(membrane_area=gen.loguniform(rng, 1e-2, 10), initial_feed_temperature=T, initial_feed_amount=gen.loguniform(rng, 1, 100),
                       initial_feed_composition=x, permeate_temperature=tp, permeate_pressure=pp)
@@ -153,6 +159,44 @@ def state_case(rep, spec, index):
                         {"kind": kind, "process": pair(pm.partial_fluxes[0]), "standalone": j})
         elif st == "raised":
             rep.count("process_step0_raised")
+
+
+def edit_then_compare(rep, case, fc, rng, T, x, tp, pp, prec, model):
+    """objects used once, edited in place, used again: the answer must be that of freshly built equal objects"""
+    import copy
+
+    from pyvaporation.conditions import Conditions
+    from pyvaporation.experiments import IdealExperiment, IdealExperiments
+    from pyvaporation.membrane import Membrane
+    from pyvaporation.permeance import Permeance
+    from pyvaporation.pervaporation import Pervaporation
+
+    pv = fc.pv
+    f1 = rng.uniform(1.4, 3.0)
+    for e in fc.membrane.ideal_experiments.experiments:  # re-measured permeances, same temperatures
+        e.permeance = Permeance(value=e.permeance.value * f1, units=e.permeance.units)
+    fresh_mem = Membrane(name=fc.membrane.name, ideal_experiments=IdealExperiments(experiments=[
+        IdealExperiment(name=e.name, temperature=e.temperature, component=e.component, permeance=Permeance(value=e.permeance.value, units=e.permeance.units),
+                        activation_energy=e.activation_energy) for e in fc.membrane.ideal_experiments.experiments]))
+    a = _guard(lambda: pv.calculate_partial_fluxes(T, x, prec, tp, pp, calculation_type=model))
+    b = _guard(lambda: Pervaporation(fresh_mem, fc.mix).calculate_partial_fluxes(T, x, prec, tp, pp, calculation_type=model))
+    if "slow" not in (a[0], b[0]):
+        same = a[0] == b[0] and (a[0] != "ok" or pair(a[1]) == pair(b[1]))
+        rep.require("after an in-place edit of the membrane's experiments the object answers like freshly built equal objects (bitwise)", same, case,
+                    {"edited_objects": [a[0], pair(a[1]) if a[0] == "ok" else repr(a[1])], "fresh_objects": [b[0], pair(b[1]) if b[0] == "ok" else repr(b[1])]})
+    cond = Conditions(membrane_area=1.0, initial_feed_temperature=T, initial_feed_amount=10.0, initial_feed_composition=x, permeate_temperature=tp, permeate_pressure=pp)
+    kw = dict(number_of_steps=3, delta_hours=1e-4, precision=prec, calculation_type=model)
+    _guard(lambda: pv.ideal_non_isothermal_process(conditions=cond, **kw))
+    cond.initial_feed_amount = 25.0
+    cond.membrane_area = 2.5
+    fresh_cond = Conditions(membrane_area=2.5, initial_feed_temperature=T, initial_feed_amount=25.0, initial_feed_composition=x, permeate_temperature=tp, permeate_pressure=pp)
+    a = _guard(lambda: pv.ideal_non_isothermal_process(conditions=cond, **kw))
+    b = _guard(lambda: Pervaporation(fresh_mem, fc.mix).ideal_non_isothermal_process(conditions=fresh_cond, **kw))
+    if "slow" not in (a[0], b[0]):
+        same = a[0] == b[0] and (a[0] != "ok" or proc.model_fingerprint(a[1]) == proc.model_fingerprint(b[1]))
+        rep.require("after an in-place edit of the conditions the object answers like freshly built equal objects (bitwise)", same, case,
+                    {"edited_objects": a[0], "fresh_objects": b[0],
+                     "difference": proc.first_difference(proc.model_fingerprint(a[1]), proc.model_fingerprint(b[1])) if a[0] == b[0] == "ok" else None})
 
 
 def curve_metrics(rep, case, curve):
